@@ -157,7 +157,7 @@ impl Prop for C15 {
         "C15"
     }
     fn rule(&self) -> String {
-        "cases = (Rust integer type in {u8,i8,u16,i16,u32,i32,u64,i64,usize,isize} or generic Value::Int/UInt) x (column type in {TINY,SHORT,YEAR,INT24,LONG,LONGLONG} x {signed,unsigned}) (optionally with other column flag bits such as ZEROFILL or BINARY set, which must not matter) x a set of values: ALL values for 8- and 16-bit types (enumerated, exhaustive), all 2^k, 2^k+-1, -(2^k)+-1 and range bounds for wider types (enumerated), plus random wide values. Each value goes through the public encoder to_mysql_bin; oracle: Ok => bytes decoded at the column's wire width and signedness equal the value as a mathematical integer; it must be accepted when the column's range contains the whole fixed-width Rust type (for usize/isize: the value); otherwise any refusal is fine. A sample additionally travels through a real binary resultset, as the second cell of a two-column row next to a column of the opposite signedness, written both column-by-column and as write_col + write_row. Enumerated (and 1 in 4000 generated) cases send the accepted values, in the text and in the binary protocol, as the cells that follow a byte string filling the row up to d bytes from the 2^24-1-byte packet boundary (d = -70..1), so that integer encodings start before, on and after the boundary and straddle it. Non-trivial = the value set contains a value the column cannot represent, or a value outside i8's range.".into()
+        "cases = (Rust integer type in {u8,i8,u16,i16,u32,i32,u64,i64,usize,isize} or generic Value::Int/UInt) x (column type in {TINY,SHORT,YEAR,INT24,LONG,LONGLONG} x {signed,unsigned}) (optionally with other column flag bits such as ZEROFILL or BINARY set, which must not matter) x a set of values: ALL values for 8- and 16-bit types (enumerated, exhaustive), all 2^k, 2^k+-1, -(2^k)+-1 and range bounds for wider types (enumerated), plus random wide values. Every other value of a set is first written to a writer that breaks after 0-2 bytes (text and binary encoders), and the next value written to a healthy writer on the same thread must be exactly itself (no encoder state survives a failed write). Each value goes through the public encoder to_mysql_bin; oracle: Ok => bytes decoded at the column's wire width and signedness equal the value as a mathematical integer; it must be accepted when the column's range contains the whole fixed-width Rust type (for usize/isize: the value); otherwise any refusal is fine. A sample additionally travels through a real binary resultset, as the second cell of a two-column row next to a column of the opposite signedness, written both column-by-column and as write_col + write_row. Enumerated (and 1 in 4000 generated) cases send the accepted values, in the text and in the binary protocol, as the cells that follow a byte string filling the row up to d bytes from the 2^24-1-byte packet boundary (d = -70..1), so that integer encodings start before, on and after the boundary and straddle it. Non-trivial = the value set contains a value the column cannot represent, or a value outside i8's range.".into()
     }
     fn assumptions(&self) -> Vec<String> {
         vec!["a deliberate assert! panic of the encoder counts as a refusal (nothing is sent)".into()]
@@ -244,6 +244,42 @@ impl Prop for C15 {
             Values::List(l) => l.iter().map(dec).collect(),
         };
         ex.class(format!("type:{}", TYPE_NAMES[case.rust_type]));
+        // An encoder that failed half-way (the connection broke while a cell was written) must not
+        // influence what the same thread encodes next, for this or any other connection: every
+        // other value is first written to a writer that breaks after 0-2 bytes, in both protocols,
+        // and the following write to a healthy writer must give exactly the next value.
+        {
+            let column = col.to_column();
+            let mut prev: Option<i128> = None;
+            for (k, &v) in values.iter().take(16).enumerate() {
+                let base = match base_of(case.rust_type, v) {
+                    Some(b) => b,
+                    None => continue,
+                };
+                let val = Val::plain(base);
+                if k % 2 == 0 {
+                    let _ = catch(|| {
+                        let _ = dispatch(&val, &mut FailingTextSink(k % 3));
+                        let _ = dispatch(&val, &mut FailingBinSink { left: k % 3, col: &column });
+                    });
+                    prev = Some(v);
+                    continue;
+                }
+                let mut out = Vec::new();
+                if let Ok(Ok(())) = catch(|| dispatch(&val, &mut TextSink(&mut out))) {
+                    let mut c = Cur::new(&out);
+                    let got = c.lenenc_bytes().ok().flatten().and_then(|b| String::from_utf8(b.to_vec()).ok()).and_then(|t| t.parse::<i128>().ok());
+                    if got != Some(v) || !c.done() {
+                        ex.fail(
+                            "c15-altered-after-failed-write",
+                            format!("{} {} written in the text protocol right after a write of {:?} to a broken writer arrives as {:?} ({} bytes)", TYPE_NAMES[case.rust_type], v, prev, got, out.len()),
+                        );
+                        return ex;
+                    }
+                    ex.count("values_written_after_a_failed_write", 1);
+                }
+            }
+        }
         let (mut rp, mut acc, mut refu) = (0u64, 0u64, 0u64);
         let mut first: Option<(String, String)> = None;
         for &v in &values {
